@@ -437,7 +437,7 @@ B("C11", "nmeas-path-only", (UTL, "    with ensure_open(filename) as f:\n       
 B("C11", "parser-rejects-bare-identity", (OPS, 'match = re.match(r"([XYZ])([0-9]+)$|(I)([0-9]*)$", op_str, re.I)', 'match = re.match(r"([XYZI])([0-9]+)$", op_str, re.I)'), rule="C11-D3")
 B("C11", "printer-rounds-coefficient", (OPS, """        return f"{self.coefficient}*{'*'.join(term_strs)}\"""", """        return f"{round(self.coefficient, 6)}*{'*'.join(term_strs)}\""""), rule="C11-D3")
 B("C11", "printer-new-token-shape", (OPS, 'term_strs = [f"{self[index]}{index}" for index in self._ops]', 'term_strs = [f"{self[index]}_{index}" for index in self._ops]'), rule="C11-D3")
-B("C11", "covariances-nested-under-correlations", (EXV, """        if self.estimator_covariances:
+B("C11", "covariances-nested-under-correlations", (EXV, """        if self.estimator_covariances is not None:
             data["estimator_covariances"] = []
             for covariance_matrix in self.estimator_covariances:
                 data["estimator_covariances"].append(
@@ -451,7 +451,7 @@ B("C11", "covariances-nested-under-correlations", (EXV, """        if self.estim
                     )
 """), rule="C11-D1g")
 B("C11", "expectation-values-key-renamed-on-reader", (EXV, 'expectation_values = convert_dict_to_array(dictionary["expectation_values"])', 'expectation_values = convert_dict_to_array(dictionary["values"])'), rule="C11-D1")
-B("C11", "parities-correlations-required", (PAR, """        if data.get("correlations"):
+B("C11", "parities-correlations-required", (PAR, """        if data.get("correlations") is not None:
             correlations: Optional[List] = [
                 convert_dict_to_array(arr) for arr in data["correlations"]
             ]
@@ -490,9 +490,9 @@ T("C11", "twin-loader-ensure-open", (UTL, """    if isinstance(file, (str, os.Pa
         data = json.load(f)
 
     return data["list"]"""))
-T("C11", "twin-reader-get-with-guard", (EXV, """        if dictionary.get("correlations"):
+T("C11", "twin-reader-get-with-guard", (EXV, """        if dictionary.get("correlations") is not None:
             correlations = []
-            for correlation_matrix in cast(Iterable, dictionary.get("correlations")):""", """        if "correlations" in dictionary and dictionary["correlations"]:
+            for correlation_matrix in cast(Iterable, dictionary.get("correlations")):""", """        if "correlations" in dictionary and dictionary["correlations"] is not None:
             correlations = []
             for correlation_matrix in dictionary["correlations"]:"""))
 
@@ -1141,7 +1141,7 @@ B("C08", "iswap-flagged-hermitian", (BUI, 'ISWAP = _gates.MatrixFactoryGate("ISW
 B("C11", "parsed-zero-coefficient-dropped", (OPS, "            if _parsed_coefficient is not None:\n                coefficient = _parsed_coefficient", "            if _parsed_coefficient:\n                coefficient = _parsed_coefficient"), rule="C11-D5")
 B("C11", "default-coefficient-by-truthiness", (OPS, "        self.coefficient = 1.0 if coefficient is None else coefficient", "        self.coefficient = coefficient or 1.0"), rule="C11-D5")
 B("C11", "covariances-read-only-with-correlations", (EXV, """        estimator_covariances: Union[List, None] = None
-        if dictionary.get("estimator_covariances"):
+        if dictionary.get("estimator_covariances") is not None:
             estimator_covariances = []
             for covariance_matrix in cast(
                 Iterable, dictionary.get("estimator_covariances")
@@ -1344,3 +1344,60 @@ B("C03", "exponentiation-memoised-by-tolerant-key", (OPS, """def _efficient_expo
 def _efficient_exponentiation(
     pauli_rep: PauliRepresentation, power: int"""), rule="C03-D8")
 T("C12", "twin-cache-keyed-by-an-int", ("wavefunction.py", "def _most_significant_set_bit(val):", "@lru_cache()\ndef _most_significant_set_bit(val):"))
+
+# ----------------------------------------------------------------------------- round 6 rules
+EVO = "evolution.py"
+B("C17", "single-entry-mark-decided-from-the-dictionary", (DIST, '("," if len(key) == 1 else "")', '("," if len(dict) == 1 else "")'), rule="C17-D5")
+T("C17", "twin-single-entry-mark-via-a-local-length", (DIST, '("," if len(key) == 1 else "")', '("," if not len(key) != 1 else "")'))
+B("C13", "stale-loop-variable-in-top-up", ("measurements/measurements.py", "                        tuple([int(measurement_value) for measurement_value in sample])\n                    ] * samples[sample]", "                        tuple([int(measurement_value) for measurement_value in state])\n                    ] * samples[sample]"), rule="C13-D8")
+B("C16", "hamiltonian-simplified-before-trotterising", (EVO, """    # concatenate the circuits for each term
+    circuit = Circuit()
+    for _ in range(n_steps):""", """    hamiltonian = hamiltonian.simplify()
+    circuit = Circuit()
+    for _ in range(n_steps):"""), rule="C16-D2")
+B("C16", "shift-index-over-a-filtered-listing", (EVO, "    for i, term_1 in enumerate(terms):", "    for i, term_1 in enumerate([t for t in terms if not t.is_constant]):"), rule="C16-D4")
+B("C03", "simplify-skips-small-terms-before-merging", (OPS, """        for term in self.terms:
+            key = term.operations""", """        for term in self.terms:
+            if abs(term.coefficient) <= 1e-8:
+                continue
+            key = term.operations"""), rule="C03-D5")
+B("C06", "circuit-bind-rekeys-the-map-by-name", (CIR, """        return type(self)(
+            operations=[op.bind(symbols_map) for op in self.operations],""", """        symbols_map = {sympy.Symbol(str(k)): v for k, v in dict(symbols_map).items()}
+        return type(self)(
+            operations=[op.bind(symbols_map) for op in self.operations],"""), rule="C06-D2")
+T("C06", "twin-circuit-bind-copies-the-map", (CIR, """        return type(self)(
+            operations=[op.bind(symbols_map) for op in self.operations],""", """        symbols_map = dict(symbols_map)
+        return type(self)(
+            operations=[op.bind(symbols_map) for op in self.operations],"""))
+B("C06", "operation-bind-returns-self-when-nothing-is-free", (GAT, """        return GateOperation(self.gate.bind(symbols_map), self.qubit_indices)""", """        if not self.gate.free_symbols:
+            return self
+        return GateOperation(self.gate.bind(symbols_map), self.qubit_indices)"""), rule="C06-D2")
+B("C09", "expansion-coefficients-projected-to-real", ("operators/_utils.py", "        coeffs[i] = trace_product(current_label)\n", "        coeffs[i] = trace_product(current_label)\n        coeffs[i] = np.real(coeffs[i])\n"), rule="C09-D5")
+T("C09", "twin-expansion-coefficient-through-a-temporary", ("operators/_utils.py", "        coeffs[i] = trace_product(current_label)\n", "        c_i = trace_product(current_label)\n        coeffs[i] = c_i\n"))
+B("C11", "sum-parser-rewrites-minus-signs", (OPS, """            terms = [PauliTerm(s.strip()) for s in re.split(r"\\+(?![^(]*\\))", terms)]""", """            terms = re.sub(r"(?<=[\\w)])\\s*-\\s*(?![^(]*\\))", " + -", terms)
+            terms = [PauliTerm(s.strip()) for s in re.split(r"\\+(?![^(]*\\))", terms)]"""), rule="C11-D3")
+T("C11", "twin-sum-parser-strips-the-text-first", (OPS, """            terms = [PauliTerm(s.strip()) for s in re.split(r"\\+(?![^(]*\\))", terms)]""", """            terms = re.sub(r"^\\s+|\\s+$", "", terms)
+            terms = [PauliTerm(s.strip()) for s in re.split(r"\\+(?![^(]*\\))", terms)]"""))
+B("C11", "bits-written-as-stored-when-the-first-shot-is-plain", ("measurements/measurements.py", """            "bitstrings": [
+                list(map(int, list(bitstring))) for bitstring in self.bitstrings
+            ],""", """            "bitstrings": [
+                list(map(int, list(bitstring))) for bitstring in self.bitstrings
+            ]
+            if not all(type(b) is int for b in next(iter(self.bitstrings), ()))
+            else [list(bitstring) for bitstring in self.bitstrings],"""), rule="C11-D4")
+B("C11", "zero-frames-dropped-by-the-writer", ("measurements/expectation_values.py", "        if self.correlations is not None:\n", "        if self.correlations:\n"), rule="C11-D5")
+B("C11", "zero-frames-dropped-by-the-reader", ("measurements/expectation_values.py", '        if dictionary.get("estimator_covariances") is not None:\n', '        if dictionary.get("estimator_covariances"):\n'), rule="C11-D5")
+B("C11", "zero-parity-frames-dropped", ("measurements/parities.py", '        if data.get("correlations") is not None:\n', '        if data.get("correlations"):\n'), rule="C11-D5")
+T("C11", "twin-frames-presence-by-membership", ("measurements/parities.py", '        if data.get("correlations") is not None:\n', '        if "correlations" in data and data["correlations"] is not None:\n'))
+B("C15", "few-samples-decoded-lsb-first", ("wavefunction.py", """        string_samples = rng.choice(a=outcome_strings, size=n_samples, p=probabilities)
+        samples = convert_bitstrings_to_tuples(string_samples)""", """        drawn = rng.choice(a=len(outcome_strings), size=n_samples, p=probabilities)
+        samples = [
+            tuple((index >> qubit) & 1 for qubit in range(wavefunction.n_qubits))
+            for index in drawn.tolist()
+        ]"""), rule="C15-D6")
+T("C04", "twin-few-samples-decoded-msb-first", ("wavefunction.py", """        string_samples = rng.choice(a=outcome_strings, size=n_samples, p=probabilities)
+        samples = convert_bitstrings_to_tuples(string_samples)""", """        drawn = rng.choice(a=len(outcome_strings), size=n_samples, p=probabilities)
+        samples = [
+            tuple((index >> (wavefunction.n_qubits - 1 - qubit)) & 1 for qubit in range(wavefunction.n_qubits))
+            for index in drawn.tolist()
+        ]"""))
